@@ -114,8 +114,8 @@ def gen_case(seed, tier='quick'):
     rng = random.Random(seed)
     cls = rng.choices(
         ['acyclic', 'chain_ok', 'selfloop', 'cycle', 'longcycle', 'fail',
-         'cycle_fail', 'dead_cycle'],
-        [26, 8, 8, 28, 4, 16, 6, 4])[0]
+         'cycle_fail', 'dead_cycle', 'switch_cycle'],
+        [24, 8, 8, 26, 4, 16, 5, 3, 6])[0]
     plain = cls in ('chain_ok', 'longcycle')
     if cls == 'chain_ok':
         n = rng.choice([1, 2, 3, 5, 10, 20, 40, 70, 100, rng.randint(1, 100)])
@@ -147,7 +147,7 @@ def gen_case(seed, tier='quick'):
     ctx['allowed'] = lower
     info = {'class': cls}
 
-    if cls in ('acyclic', 'selfloop', 'dead_cycle'):
+    if cls in ('acyclic', 'selfloop', 'dead_cycle', 'switch_cycle'):
         depth = [0] * n
         for i in range(1, n):
             k = rng.choice([1, 1, 2, 2, 3])
@@ -187,7 +187,7 @@ def gen_case(seed, tier='quick'):
         terms = []
         for j, kd in deps[i]:
             if cls in ('acyclic', 'chain_ok', 'fail', 'selfloop',
-                       'dead_cycle'):
+                       'dead_cycle', 'switch_cycle'):
                 dead_ok = (lambda d, i=i: d < i)
             else:
                 dead_ok = None
@@ -215,6 +215,19 @@ def gen_case(seed, tier='quick'):
         else:
             nodes[i]['terms'].append(
                 {'t': 'if', 'live': addrs[live], 'dead': addrs[j]})
+    switches = {}
+    if cls == 'switch_cycle':
+        # IF(V1>0, <edge that closes a cycle>, <harmless>) - the cycle exists
+        # only while the input V1 is positive
+        sw = f'{sheets[0]}!V1'
+        switches[sw] = 0
+        i = rng.randrange(n)
+        j = rng.randrange(i, n)          # upward or to itself
+        low = rng.randrange(i) if i else None
+        nodes[i]['terms'].append(
+            {'t': 'ifk', 'k': sw, 'then': addrs[j],
+             'else': addrs[low] if low is not None else None})
+        info['switch_at'] = addrs[i]
     if cls in ('fail', 'cycle_fail'):
         d = rng.randrange(n)
         fk = rng.choice(['nosuch', 'nosuch', 'boom', 'flaky'])
@@ -225,7 +238,10 @@ def gen_case(seed, tier='quick'):
         info['fail_kind'] = fk
 
     # entry -----------------------------------------------------------------
-    if cls in ('acyclic', 'chain_ok', 'fail', 'dead_cycle'):
+    if cls == 'switch_cycle':
+        # an entry that reaches the switch node
+        entry = rng.choice([k for k in range(n) if k >= i] or [i])
+    elif cls in ('acyclic', 'chain_ok', 'fail', 'dead_cycle'):
         entry = n - 1 if rng.random() < 0.7 else rng.randrange(n)
     elif cls == 'selfloop':
         entry = rng.randrange(n)
@@ -233,7 +249,23 @@ def gen_case(seed, tier='quick'):
         entry = rng.randrange(n)
     info['entry_index'] = entry
 
+    # unrelated formulas (model size matters to some detection schemes)
+    padding = rng.choice([0] * 16 + [15, 40, 60] + [300 if n < 30 else 0])
+    # a defined name over a block of nodes (every member gets the name as
+    # a back-link)
+    range_names = {}
+    if rng.random() < 0.15 and n >= 2:
+        lo = rng.randrange(min(split, n) - 1) if min(split, n) > 1 else 0
+        hi = rng.randint(lo + 1, min(split, n) - 1) if min(split, n) > 1 \
+            else 0
+        if hi > lo:
+            r1, r2 = lo // W, hi // W
+            a1 = worlds.addr(sheets[0], 0, r1).split('!')[1]
+            a2 = worlds.addr(sheets[0], W - 1, r2).split('!')[1]
+            range_names['block'] = f'{sheets[0]}!{a1}:{a2}'
     world = {'class': cls, 'info': info, 'nodes': nodes, 'sheets': sheets,
+             'switches': switches, 'padding': padding,
+             'range_names': range_names,
              'names': ctx['names'],
              'qualify': bool(two or rng.random() < 0.3),
              'fail_on': 1}
@@ -257,6 +289,13 @@ def gen_case(seed, tier='quick'):
     if rng.random() < 0.3:
         rng.shuffle(tail)
     ops.extend(tail)
+    if switches:
+        sw = next(iter(switches))
+        ops.extend([{'op': 'set', 'target': sw, 'value': 1},
+                    {'op': 'eval', 'target': e},
+                    {'op': 'eval', 'target': f'{sheets[0]}!Y2'},
+                    {'op': 'set', 'target': sw, 'value': 0},
+                    {'op': 'eval', 'target': e}])
     return {'property': ID, 'seed': seed, 'knobs': {}, 'world': world,
             'ops': ops}
 
@@ -279,6 +318,10 @@ def probe_cells(world):
 
 def render(world):
     cells = probe_cells(world)
+    for a, v in world.get('switches', {}).items():
+        cells[a] = v
+    for k in range(world.get('padding', 0)):
+        cells[f'Pad!A{k + 1}'] = f'=1+{k}'
     q = world.get('qualify', False)
     s0 = world.get('sheets', ['Sheet1'])[0]
     for nd in world['nodes']:
@@ -297,6 +340,10 @@ def render(world):
                 rr = t['ref'] if (t['sheet'] == sheet == s0 and not q) \
                     else f"{t['sheet']}!{t['ref']}"
                 parts.append(f'SUM({rr})')
+            elif k == 'ifk':
+                th = _ref(sheet, t['then'], q, s0)
+                el = _ref(sheet, t['else'], q, s0) if t['else'] else '0'
+                parts.append(f"IF({_ref(sheet, t['k'], q, s0)}>0,{th},{el})")
             elif k == 'if':
                 live = _ref(sheet, t['live'], q, s0) if t['live'] else '1'
                 parts.append(
@@ -316,7 +363,10 @@ def render(world):
 
 
 class Graph:
-    def __init__(self, world):
+    def __init__(self, world, switches=None):
+        self.switches = dict(world.get('switches', {}))
+        if switches:
+            self.switches.update(switches)
         self.nodes = {nd['a']: nd for nd in world['nodes']}
         self.live = {}
         self.alle = {}
@@ -332,6 +382,14 @@ class Graph:
                     if t['live']:
                         lv.append(t['live'])
                     al.append(t['dead'])
+                elif k == 'ifk':
+                    on = self.switches.get(t['k'], 0) > 0
+                    hot, cold = (t['then'], t['else']) if on \
+                        else (t['else'], t['then'])
+                    if hot:
+                        lv.append(hot)
+                    if cold:
+                        al.append(cold)
             self.live[a] = lv
             self.alle[a] = lv + al
         self._val = {}
@@ -396,6 +454,10 @@ class Graph:
                     v += sum(self._val[m] for m in t['members'])
                 elif k == 'if':
                     v += self._val[t['live']] if t['live'] else 1
+                elif k == 'ifk':
+                    on = self.switches.get(t['k'], 0) > 0
+                    hot = t['then'] if on else t['else']
+                    v += self._val[hot] if hot else 0
             self._val[x] = v
         return self._val[a]
 
@@ -481,6 +543,8 @@ def run_case(case):
     cells = render(world)
     g = Graph(world)
     names = {nm: worlds.dollar(a) for nm, a in world['names'].items()}
+    names.update({nm: worlds.dollar(a)
+                  for nm, a in world.get('range_names', {}).items()})
     log, stats, cover = [], {'ops': 0}, []
     viol = None
     sig_faults = []
@@ -499,6 +563,14 @@ def run_case(case):
                 break
             bump('ops')
             target = op['target']
+            if op['op'] == 'set':
+                out = outcome_of(ev.set_cell_value, target, op['value'])
+                g = Graph(world, {target: op['value']})
+                world = dict(world, switches=dict(
+                    world.get('switches', {}), **{target: op['value']}))
+                log.append([seq, 'set', target, op['value'], out[0]])
+                bump('probe:dependency_switched_by_input_change')
+                continue
             addr = world['names'].get(target, target)
             if op.get('new_evaluator'):
                 ev = Evaluator(model, uf.namespace())
@@ -667,7 +739,7 @@ def reducers(case):
     used = set()
     for nd in w['nodes']:
         for t in nd['terms']:
-            for k in ('to', 'live', 'dead'):
+            for k in ('to', 'live', 'dead', 'then', 'else'):
                 if t.get(k):
                     used.add(t[k])
             used.update(t.get('members', ()))
